@@ -405,6 +405,8 @@ def _stream_run(pm, v):
     kind = v["kind"]
     c = TcpClient("localhost", 0, kind)
     read = {"beast": c.read_beast_buffer, "raw": c.read_raw_buffer, "skysense": c.read_skysense_buffer}[kind]
+    if v.get("reader") == "rssi":           # the piaware variant of the Beast reader: same framing, [msg, dBFS, ts] triples
+        read = c.read_beast_buffer_rssi_piaware
     wire = _wire(kind, v["frs"])
     cuts = [0] + list(v["cuts"]) + [len(wire)]
     steps = []
